@@ -278,6 +278,14 @@ def c20(ck, tmp):
     for it in range(n):
         nrec = rng.choice([1, 2, 3, 6, 12])
         lines = [rand_line(rng, rng.randrange(nrec + 2)) for _ in range(nrec)]
+        if rng.random() < 0.25:
+            # a GAF that was phased before: it already carries ps:Z / ht:Z fields (stale values)
+            def stale(l):
+                f = l.split("\t")
+                extra = ["ps:Z:%s" % rng.choice(["none", "chr1-77", "chrX-5"]), "ht:Z:%s" % rng.choice(["none", "H1", "H2"])]
+                pos = rng.randint(12, len(f))
+                return "\t".join(f[:pos] + extra + f[pos:])
+            lines = [stale(l) if rng.random() < 0.7 else l for l in lines]
         names = sorted({l.split("\t")[0].split(" ")[0] for l in lines})
         tsv = ["#readname\thaplotype\tphaseset\tchromosome"] if rng.random() < 0.8 else []
         for nm in names + names[:2]:
